@@ -38,7 +38,7 @@ RULE = (
     "BaseExceptionGroup([ClientClosedError, ValueError])} x hook position in {on_connection coroutine / generator before its first "
     "yield / generator after its yield, handle before first yield / after request 1 / while handling a thrown parse error / in "
     "finally after a normal return / in finally while being closed on disconnect, on_disconnection} for TCP (UDP: the four handle "
-    "positions) + connection set-up faults {getpeername ENOTCONN after accept, set-up of the accepted socket failing with ENOTCONN / EINVAL inside the listener task, connection reset right after accept (x 3 positions)} "
+    "positions) + connection set-up faults {getpeername ENOTCONN after accept, set-up of the accepted socket failing with ENOTCONN / EINVAL inside the listener task, connection reset right after accept (x 3 positions), a malformed frame pipelined behind a valid request in one segment (handler never fails)} "
     "x 1-2 concurrent healthy clients x both TCP receive paths; schedules: the peer acting next and the loop-iteration boundary of "
     "every client event are explorer choices (round-robin default, bound 1 quick / 2 thorough deviations, 1 for TCP with 2 healthy clients); distinct_nontrivial = "
     "distinct (scenario, hook log) pairs of executions with at least one non-default choice"
@@ -287,6 +287,9 @@ def faulty_frames(cfg: dict) -> list[bytes]:
     pos = cfg["pos"]
     if cfg.get("fault") in ("enotconn", "connect-enotconn", "connect-einval"):
         return [b"f1\n"]
+    if cfg.get("fault") == "pipelined-bad-frame":
+        # one segment: a valid request, a malformed frame right behind it (parsed from the leftover buffer), another valid request
+        return [b"f0\n\xff\nf2\n"]
     if pos == "h-thrown":
         return [b"\xff\n"]
     if pos in ("oc-gen-post", "h-post", "h-finally-ret", "h-finally-exit", "disc"):
@@ -453,6 +456,10 @@ def oracle_tcp(cfg: dict, obs: dict) -> tuple[str | None, str]:
         want_h = "[conn, disc]"
     if not ok:
         return "faulty-client-on_disconnection-not-as-documented", f"faulty client hooks {fh}, documented {want_h}; log={log}"
+    if fault == "pipelined-bad-frame":
+        fl = [e[1:] for e in log if e[0] == "F" and e[1] in ("req", "err")]
+        if fl != [("req", "f0"), ("err",), ("req", "f2")]:
+            return "pipelined-malformed-frame-not-delivered-as-one-parse-error-in-place", f"faulty client's handlers saw {fl}; log={log}"
     if fault in (None, "reset") and obs["fired"] != 1:
         return "fault-not-injected", f"harness: the fault fired {obs['fired']} times; log={log}"
     if obs["overlap"]:
@@ -603,7 +610,7 @@ def scenarios(tier: str) -> list[dict]:
                     if tier == "quick" and proto == "buf" and nh == 2:
                         continue
                     out.append({"kind": "tcp", "proto": proto, "healthy": nh, "pos": pos, "exc": exc, "fault": None, "bound": bound})
-            for fault in ("enotconn", "connect-enotconn", "connect-einval"):
+            for fault in ("enotconn", "connect-enotconn", "connect-einval", "pipelined-bad-frame"):
                 out.append({"kind": "tcp", "proto": proto, "healthy": nh, "pos": "none", "exc": "ValueError", "fault": fault, "bound": bound})
             for pos in ("oc-coro", "disc", "h-finally-exit"):
                 for exc in EXC:
